@@ -350,7 +350,13 @@ FragSeqs == <<
     ExprS(Arr(<<C0(Id("inc")), Id("k"), Id("gv")>>))>>,
   \* var without value, nested function using a later-assigned variable, for loop with closure
   <<Var("h"), Def("fs", Arr(<<>>)), For(<<Def("i", I(0))>>, Bin("<", Id("i"), I(2)), <<Inc("i")>>, <<Def("t", Id("i")), Push1(Fn0(<<Ret(Id("t"))>>))>>),
-    Asg("h", Idx(Id("fs"), I(1))), ExprS(Arr(<<C0(Id("h")), C0(Idx(Id("fs"), I(0)))>>))>>
+    Asg("h", Idx(Id("fs"), I(1))), ExprS(Arr(<<C0(Id("h")), C0(Idx(Id("fs"), I(0)))>>))>>,
+  \* a builtin's name taken by a top-level function, called with constant arguments in later fragments (what the optimizer would fold)
+  <<Def("n", I(0)), Def("len", Fn(<<"v">>, FALSE, <<Inc("n"), Ret(I(42))>>)), ExprS(C1(Id("len"), S("abc"))), ExprS(Arr(<<C1(Id("len"), S("")), Id("n")>>)), ExprS(Id("n"))>>,
+  <<Def("string", Fn(<<"v">>, FALSE, <<Ret(Arr(<<Id("v")>>))>>)), ExprS(C1(Id("string"), I(5))), Def("int", I(7)), ExprS(Bin("+", Id("int"), I(1))), ExprS(C1(Id("string"), Id("int")))>>,
+  \* the same through var / const declarations and a later re-assignment
+  \* (a constant declaration emits no code: a fragment ending in one reports whatever value the statement before left, so it is not put last)
+  <<Var("len"), Const("int", I(3)), Asg("len", Fn(<<"v">>, FALSE, <<Ret(S("mine"))>>)), ExprS(C1(Id("len"), S("ab"))), ExprS(Arr(<<Id("int"), C1(Id("len"), Arr(<<>>))>>))>>
 >>
 FragIdx == [f : {"frag"}, s : 1..Len(FragSeqs), cut : SUBSET (1..4)]
 \* execute the statements one after another in one scope, recording for each the value a fragment
